@@ -59,7 +59,9 @@ fn oracle(base: &Context, session: &[Vec<String>]) -> Option<(usize, String)> {
         let mut scratch = twin.clone();
         let o_twin = run_input(&mut scratch, &code);
         if o_real.stage == "panic" {
-            return Some((i, format!("input {} panicked: {}", i, o_real.err)));
+            // a crash is not one of the failures C06 speaks about (that is C08) and leaves no session to
+            // compare: the case ends here without a verdict
+            return None;
         }
         if o_real.text() != o_twin.text() {
             return Some((
@@ -189,6 +191,13 @@ fn emit(out: &mut Out, t: &Tables, session: &[Input], count_case: bool) {
     for inp in session {
         let code = inp.stmts.join("\n");
         let o = run_input(&mut real, &code);
+        if o.stage == "panic" {
+            if count_case {
+                out.count("session_cut_short_by_panic_outside_property");
+                out.count(&format!("panic_at_{}", o.err.split(" :: ").next().unwrap_or("?")));
+            }
+            break;
+        }
         // position at which the failing stage stops (only observable for `module`: earlier imports were loaded)
         let pos = match o.stage {
             "module" => inp
@@ -290,6 +299,16 @@ fn gen_session(rng: &mut Rng, base: &Context, n_inputs: usize) -> Vec<Input> {
         }
         // adaptive: the generator's environment follows what really happened
         let o = run_input(&mut probe, &join_input(&stmts));
+        if o.stage == "panic" {
+            // the session ends with the crashing input (emit stops there too)
+            session.push(Input {
+                stmts: stmts.iter().map(|s| s.text.clone()).collect(),
+                intent,
+                fail_pos,
+                tags: stmts.iter().map(|s| s.tag).collect(),
+            });
+            break;
+        }
         if o.ok() {
             scratch.n = scratch.n.max(env.n);
             env = scratch;
